@@ -89,6 +89,8 @@ def ev(node, env: dict, funcs: dict | None = None, methods: dict | None = None):
                 return +v
             if isinstance(n.op, ast.Not):
                 return not v
+            if isinstance(n.op, ast.Invert) and hasattr(v, "__invert__") and not isinstance(v, (int, bool)):
+                return ~v
         if isinstance(n, ast.BinOp):
             if isinstance(n.op, ast.Div):
                 from fractions import Fraction
@@ -167,6 +169,8 @@ def ev(node, env: dict, funcs: dict | None = None, methods: dict | None = None):
                 idx = e(n.slice, env)
             try:
                 return base[idx]
+            except Raised:
+                raise
             except Exception as ex:
                 raise NotFinite(f"{type(ex).__name__} in {unparse(n)}")
         if isinstance(n, ast.Call):
@@ -444,6 +448,10 @@ class FinMat:
             return FinMat([[x] for x in flat])
         if shape == (1, -1):
             return FinMat([flat])
+        if len(shape) == 2 and shape[0] == -1 and shape[1] > 0 and len(flat) % shape[1] == 0:
+            shape = (len(flat) // shape[1], shape[1])
+        if len(shape) == 2 and shape[1] == -1 and shape[0] > 0 and len(flat) % shape[0] == 0:
+            shape = (shape[0], len(flat) // shape[0])
         if len(shape) == 2 and -1 not in shape and shape[0] * shape[1] == len(flat):
             return FinMat([flat[i * shape[1]:(i + 1) * shape[1]] for i in range(shape[0])])
         raise NotFinite(f"reshape{shape}")
@@ -490,3 +498,67 @@ def _hstack(parts):
 
 MATRIX_FUNCS = {"_np.zeros": FinMat.zeros, "np.zeros": FinMat.zeros, "_np.vstack": _vstack, "_np.hstack": _hstack,
                 "_np.eye": lambda n, **kw: FinMat([[1 if i == j else 0 for j in range(n)] for i in range(n)])}
+
+
+class FinVec:
+    """a 1-D array of exact values / NaN markers: positions, masks, size (for leaf functions that pick elements)"""
+    _fin_attrs = ("size", "shape", "ndim")
+    NAN = "NaN"
+
+    def __init__(self, items):
+        self.items = list(items)
+
+    @property
+    def size(self):
+        return len(self.items)
+
+    @property
+    def shape(self):
+        return (len(self.items),)
+
+    @property
+    def ndim(self):
+        return 1
+
+    def __len__(self):
+        return len(self.items)
+
+    def __iter__(self):
+        return iter(self.items)
+
+    def __invert__(self):
+        if not all(isinstance(x, bool) for x in self.items):
+            raise NotFinite("~ on a non-boolean vector")
+        return FinVec([not x for x in self.items])
+
+    def __getitem__(self, key):
+        if isinstance(key, FinVec):
+            if len(key) != len(self) or not all(isinstance(x, bool) for x in key.items):
+                raise NotFinite("mask of the wrong shape")
+            return FinVec([x for x, k in zip(self.items, key.items) if k])
+        if isinstance(key, list):
+            try:
+                return FinVec([self.items[k] for k in key])
+            except IndexError:
+                raise Raised("IndexError")
+        if isinstance(key, tuple):
+            if len(key) != 1:
+                raise Raised("IndexError: too many indices")
+            return self.items[key[0]]
+        if isinstance(key, int):
+            try:
+                return self.items[key]
+            except IndexError:
+                raise Raised("IndexError")
+        if isinstance(key, slice):
+            return FinVec(self.items[key])
+        raise NotFinite("vector index")
+
+    def __eq__(self, other):
+        return isinstance(other, FinVec) and self.items == other.items
+
+    def __repr__(self):
+        return f"FinVec({self.items})"
+
+
+VECTOR_FUNCS = {"_np.isnan": lambda v: FinVec([x == FinVec.NAN for x in v.items]), "_np.isfinite": lambda v: FinVec([x != FinVec.NAN for x in v.items])}
